@@ -357,6 +357,7 @@ func (u *Universe) prelude(used func(sym string) bool) string {
 (declare-fun byte_str (Int) Str)
 (declare-fun rune_count (Str) Int)
 (assert (forall ((s Str)) (! (>= (slen s) 0) :pattern ((slen s)))))
+(assert (forall ((s Str) (a Int) (b Int) (i Int)) (! (=> (and (<= 0 a) (<= a b) (<= b (slen s)) (<= 0 i) (< i (- b a))) (= (sbyte (ssub s a b) i) (sbyte s (+ a i)))) :pattern ((sbyte (ssub s a b) i)))))
 (define-fun go.div ((a Int) (b Int)) Int (ite (>= a 0) (ite (> b 0) (div a b) (- (div a (- b)))) (ite (> b 0) (- (div (- a) b)) (div (- a) (- b)))))
 (define-fun go.rem ((a Int) (b Int)) Int (- a (* b (go.div a b))))
 `)
